@@ -66,11 +66,37 @@ CRED_FORMS = [
     ("cookie-zero-signature", False),
     ("cookie-tampered-timestamp", False),
     ("cookie-expired", False),
+    # exotic values in every channel (never the password)
+    ("query-nonascii", False),
+    ("query-astral", False),
+    ("bearer-nonascii", False),
+    ("form-nonascii", False),
+    ("query-invalid-utf8", False),
+    ("query-nul", False),
+    ("bearer-nul", False),
+    ("query-very-long", False),
+    ("bearer-very-long", False),
+    ("form-very-long", False),
     ("bearer-right", True),
     ("query-right", True),
     ("cookie-valid", True),
 ]
 CRED_VALID = dict(CRED_FORMS)
+# the credential is not decodable as text / not a legal header value: the HTTP framework may reject the request as
+# malformed (400) before the application sees it
+CRED_MALFORMED = {"query-invalid-utf8", "bearer-nul"}
+# the presented password contains a non-ASCII character
+CRED_NONASCII = {"query-nonascii", "query-astral", "bearer-nonascii", "form-nonascii"}
+NONASCII_SAMPLES = ["\u00e9", "pass\u00e9", "\u00fc" * 16, "\u0416\u0416", "caf\u00e9-token"]
+
+
+def build_cred_form(form: str, *, token: str, rng):
+    """Login-form channel: pairs for an application/x-www-form-urlencoded body (only sent with non-safe methods)."""
+    if form == "form-nonascii":
+        return [("token", rng.choice(NONASCII_SAMPLES + ["\U0001F600"]))]
+    if form == "form-very-long":
+        return [("token", token + "a" * rng.choice([5000, 60000]))]
+    return []
 
 
 def build_cred(form: str, *, token: str, secret: bytes, cookie_name: str, now: int, rng):
@@ -114,6 +140,25 @@ def build_cred(form: str, *, token: str, secret: bytes, cookie_name: str, now: i
         c.append((cookie_name, fresh[:-64] + good[-64:]))  # fresh timestamp, signature of the old one
     elif form == "cookie-expired":
         c.append((cookie_name, sign_cookie_v2(secret, cookie_name, b"y", now - rng.choice([32, 40, 400]) * 86400)))
+    elif form == "query-nonascii":
+        q.append(("token", rng.choice(NONASCII_SAMPLES + [token[:-1] + "\u00e9"])))
+    elif form == "query-astral":
+        q.append(("token", rng.choice(["\U0001F600", token + "\U00010348"])))
+    elif form == "bearer-nonascii":
+        # sent as raw Latin-1 bytes in the header
+        h.append(("Authorization", "Bearer " + rng.choice(["\u00e9", "pass\u00e9", token[:-1] + "\u00ff", "\u00c3\u00a9"])))
+    elif form == "query-invalid-utf8":
+        q.append(("token", rng.choice([b"\xff", b"ab\xc3", b"\xed\xa0\x80", token.encode() + b"\xfe"])))
+    elif form == "query-nul":
+        q.append(("token", rng.choice(["a\x00b", "\x00", token + "\x00"])))
+    elif form == "bearer-nul":
+        h.append(("Authorization", "Bearer " + rng.choice(["a\x00b", token + "\x00"])))
+    elif form == "query-very-long":
+        q.append(("token", token + "a" * rng.choice([5000, 30000])))
+    elif form == "bearer-very-long":
+        h.append(("Authorization", "Bearer " + token * rng.choice([100, 900])))
+    elif form in ("form-nonascii", "form-very-long"):
+        pass  # see build_cred_form
     elif form == "bearer-right":
         h.append(("Authorization", f"Bearer {token}"))
     elif form == "query-right":
